@@ -29,6 +29,14 @@ elif len(sys.argv) > 4 and sys.argv[4] == "boundary":
     steer = """
 For this round: at least one of your changes must show ONLY AT AN EXACT BOUNDARY OR DEGENERATE VALUE of something the property quantifies over - a parameter exactly 0 (or exactly at the minimum / maximum of its legal range), two values exactly equal (ties, a band of zero or one-ulp width, coincident points), a batch of exactly one event or exactly one partition, an event exactly on a table node / grid edge / range limit, a value with many significant digits, a negative zero, an exactly representable versus a not exactly representable number - and be bit-identical to the original everywhere else. And at least one must concern the LIFE CYCLE OF AN OBJECT: a stage / geometry / configuration / table / grid object that is copied, deep-copied, pickled and restored, re-used after a call that raised, re-configured after construction, sliced or derived from another object, or kept alive while another one is created - correct for a freshly constructed object used once.
 """
+elif len(sys.argv) > 4 and sys.argv[4] == "ordering":
+    steer = """
+For this round: at least one of your changes must depend on ORDER or COMPOSITION rather than on the value of a single event - the order of the events inside a batch (sorted versus unsorted, a permutation, duplicates next to each other, the first or the last element, an element that is the batch minimum or maximum), which OTHER events share the batch (a reduction such as min / max / mean / any / all / a shape or dtype taken from the whole array that leaks into per-event results), the order of two calls, the order of keys / columns / configuration fields, or the order in which partitions or stages complete. The result for a permuted or split input must no longer be the permuted or concatenated result, in a specific situation only. And at least one must sit in a RARELY TAKEN BRANCH: code that runs only when a mask selects nothing or everything, when a loop runs zero times or exactly once, when an exception is caught and handled, when a fallback / retry / `else` arm is taken, when an optional file, keyword or header entry is absent - the common path stays bit-identical.
+"""
+elif len(sys.argv) > 4 and sys.argv[4] == "crosscut":
+    steer = """
+For this round: at least one of your changes must be made in SHARED INFRASTRUCTURE that many parts of the simulator use - src/nuspacesim/utils/ (decorators, interpolation, grids, unit helpers, the cli option parsing), src/nuspacesim/constants.py, src/nuspacesim/types.py or results_table.py, config.py validators / serializers, compute.py wiring, the data-file loaders - so that it breaks the stated property through the way the anchored code uses that infrastructure, for a specific input or configuration only, while every other documented use of the shared code keeps working. And at least one must be a change that is correct for the DEFAULT configuration (`create-config` output, 525 km detector, optical channel, diffuse mode, mono-energetic 10^8 GeV... whatever the defaults are) and for the configurations the test-suite uses, but wrong for another LEGAL configuration value: a different detector altitude, another month, a non-default table version, a target-mode source, a radio band, a cloud model, a power-law or file-based spectrum, a different number of antennas, thresholds, or output options.
+"""
 elif len(sys.argv) > 4 and sys.argv[4] == "interaction":
     steer = """
 For this round: at least one of your changes must live in an INTERACTION rather than in a single formula - between two calls on one object, between two objects or two stages of the pipeline, between the library and its environment (files, the process, configuration objects that outlive a call, the dtype / memory layout / length of the arrays passed in), or between two edits that are each harmless alone. And at least one must sit at a code site that is NOT the most obvious function for this property: a helper, decorator or utility it depends on, the wiring in compute.py or the command line, a constructor, or a data-handling routine.
